@@ -1,0 +1,55 @@
+""" Verification hooks. Everything in this module is inert unless the
+environment variable MOPEPGEN_VERIF is set to 1.
+
+- emit(event, **fields) appends one NDJSON line to
+  $MOPEPGEN_VERIF_TRACE_DIR/<pid>.ndjson with a per-process sequence number.
+- maybe_fail(unit) raises if the unit id is listed in MOPEPGEN_VERIF_FAIL
+  (comma separated; ids are <tx>:main, <tx>:fusion:<id>, <tx>:circ:<id>).
+- maybe_timeout(tx) raises TimeoutError the first k times it is called for
+  <tx> when MOPEPGEN_VERIF_TIMEOUT contains <tx>=<k> (comma separated).
+"""
+import json
+import os
+
+ENABLED = os.environ.get('MOPEPGEN_VERIF') == '1'
+
+_SEQ = 0
+_TIMEOUTS = {}
+
+def emit(event:str, **fields):
+    """ Write one trace event """
+    # pylint: disable=global-statement
+    global _SEQ
+    if not ENABLED:
+        return
+    trace_dir = os.environ.get('MOPEPGEN_VERIF_TRACE_DIR')
+    if not trace_dir:
+        return
+    _SEQ += 1
+    record = {'pid': os.getpid(), 'seq': _SEQ, 'event': event}
+    record.update(fields)
+    with open(os.path.join(trace_dir, f"{os.getpid()}.ndjson"), 'at') as handle:
+        handle.write(json.dumps(record) + '\n')
+
+def maybe_fail(unit:str):
+    """ Fault injection for a processing unit """
+    if not ENABLED:
+        return
+    units = os.environ.get('MOPEPGEN_VERIF_FAIL', '')
+    if unit in [x for x in units.split(',') if x]:
+        raise RuntimeError(f"verification fault injected into {unit}")
+
+def maybe_timeout(tx_id:str):
+    """ Timeout injection for a transcript """
+    if not ENABLED:
+        return
+    for item in os.environ.get('MOPEPGEN_VERIF_TIMEOUT', '').split(','):
+        if not item or '=' not in item:
+            continue
+        key, val = item.rsplit('=', 1)
+        if key != tx_id:
+            continue
+        done = _TIMEOUTS.get(tx_id, 0)
+        if done < int(val):
+            _TIMEOUTS[tx_id] = done + 1
+            raise TimeoutError(f"verification timeout injected into {tx_id}")
